@@ -310,11 +310,26 @@ def check_normalize(case, ctx: Ctx):
 @st.composite
 def normalize_cases(draw, tier="quick"):
     kind = draw(st.sampled_from(["normalize", "normalize", "partial", "partial", "normalize_bins", "normalize_all"]))
+    def rescale(spec):
+        # weighted histograms of very small / very large weights: sums far below 1e-8 are not "empty"
+        mag = draw(st.sampled_from([None, None, 2.0 ** -40, 2.0 ** -70, 2.0 ** 40]))
+        if mag is None:
+            return spec
+
+        def mul(x, f):
+            return [mul(y, f) for y in x] if isinstance(x, list) else float(x) * f
+
+        spec["dtype"] = "float64"
+        spec["freq"] = mul(spec["freq"], mag)
+        if spec.get("err2") is not None:
+            spec["err2"] = mul(spec["err2"], mag * mag)
+        return spec
+
     if kind == "normalize":
-        spec = draw(hgen.hist_spec(dims=(1, 2, 3), dtypes=["int32", "int64", "float32", "float64"], adaptive=False))
+        spec = rescale(draw(hgen.hist_spec(dims=(1, 2, 3), dtypes=["int32", "int64", "float32", "float64"], adaptive=False)))
         return {"kind": kind, "spec": spec, "inplace": draw(st.booleans()), "percent": draw(st.booleans())}
     if kind == "partial":
-        spec = draw(hgen.hist_spec(dims=(2,), dtypes=["int64", "float64", "int32"], adaptive=False, rich_meta=False))
+        spec = rescale(draw(hgen.hist_spec(dims=(2,), dtypes=["int64", "float64", "int32"], adaptive=False, rich_meta=False)))
         return {"kind": kind, "spec": spec, "inplace": draw(st.booleans()), "axis": draw(st.integers(0, 1)),
                 "axis_by": draw(st.sampled_from(["index", "name"]))}
     ps = draw(gen.pairs(1, 6, gapped=False))
@@ -355,6 +370,14 @@ def check_refusals(case, ctx: Ctx):
         ctx.refused(f"{c} * h", lambda: c * h)
         ctx.refused(f"h *= {c}", h.__imul__, c)
         ctx.refused(f"h / {c}", lambda: h / c)
+    elif kind == "array0d":
+        # zero-dimensional arrays are arrays, not constants
+        for operand in (np.array(2.0), np.array(3), np.squeeze(np.array([0.5])), np.array(2, dtype=np.int16), np.asarray(np.float32(4.0))):
+            ctx.refused(f"h * {operand!r} (0-d array)", lambda: h * operand)
+            ctx.refused(f"{operand!r} (0-d array) * h", lambda: operand * h)
+            ctx.refused(f"h / {operand!r} (0-d array)", lambda: h / operand)
+            ctx.refused(f"h *= {operand!r} (0-d array)", h.__imul__, operand)
+            ctx.refused(f"h /= {operand!r} (0-d array)", h.__itruediv__, operand)
     else:
         operand = np.ones(h.shape) * 2 if kind == "array" else (np.ones(h.shape) * 2).tolist()
         ctx.refused(f"h * {kind}", lambda: h * operand)
@@ -367,7 +390,7 @@ def check_refusals(case, ctx: Ctx):
 
 @st.composite
 def refusal_cases(draw, tier="quick"):
-    kind = draw(st.sampled_from(["h*h", "h/h", "c/h", "negative", "negative", "array", "list"]))
+    kind = draw(st.sampled_from(["h*h", "h/h", "c/h", "negative", "negative", "array", "list", "array0d"]))
     spec = draw(hgen.hist_spec(dims=(1, 2, 3), dtypes=["int64", "float64", "int32", "float32"], adaptive=False, allow_zero=draw(st.booleans())))
     return {"kind": kind, "spec": spec, "c": draw(st.sampled_from([-1, -2.5, -0.5, np.float64(-3.0).item()]))}
 
